@@ -93,7 +93,7 @@ func judgeC08(c *fw.Ctx, sc *SnapCase) {
 }
 
 func init() {
-	pr := &Profile{Sets: c08Sets, Kinds: allKinds, MinIDs: 1, Huge: true, Zoo: true, TileWidth: true}
+	pr := &Profile{Sets: c08Sets, Kinds: allKinds, MinIDs: 1, Huge: true, Zoo: true, Repeat: true, TileWidth: true}
 	fw.Register(&fw.Prop{
 		ID: "C08", Cases: tierN(150000, 2000000),
 		Run: func(c *fw.Ctx) {
